@@ -101,6 +101,10 @@ def check_failure(label, block, expect, s_period, red, tol, cap, steady=False):
     if err == 'HANG':
         return 'hang', [core.violation('unbounded-work', 'solve did not stop within 30 s (cap %d)' % cap, case)], False
     if err is None:
+        bad = sorted(v for v, x in sol.TimeSeries.items() if any(isinstance(y, float) and (y != y or y in (float('inf'), float('-inf'))) for y in x))
+        if bad:
+            # a period whose iterate is not a finite number cannot have met the tolerance
+            return 'nonfinite-returned', [core.violation('nonfinite-period-returned-normally', 'solve returned normally with non-finite values in %s' % bad[:4], case)], False
         if expect == 'fail' and cap >= 50:
             # a failing family that returns normally: not this property's clause (C02 judges returned values) unless
             # the intended failure is an arithmetic error that must persist
